@@ -28,14 +28,14 @@ def run(ctx):
         prog, info = load_program(cfg, "e57")
         ctx.configs[cfg] = info
         ctx.cfg = cfg
-        blob_rules.write_protocol(ctx, prog, "R1")
-        blob_rules.read_protocol(ctx, prog, "R2")
-        blob_rules.image_siblings(ctx, prog, "R3")
-        blob_rules.enum_tag_bijection(ctx, prog, "R4")
-        page_rules.read_current_page_shape(ctx, prog, "R5")
-        page_rules.reload_after_advance(ctx, prog, "R5")
-        cache_rules.who_may_write(ctx, prog, cache_rules.PR, rule="R6")
-        cache_rules.invalidate_on_clobber(ctx, prog, cache_rules.PR, rule="R6")
-        cache_rules.validate_before_publish(ctx, prog, cache_rules.PR, "table" if cfg == "lib" else "crate", rule="R6")
-        cache_rules.serve_only_verified(ctx, prog, cache_rules.PR, rule="R6")
+        ctx.call(blob_rules.write_protocol, prog, "R1")
+        ctx.call(blob_rules.read_protocol, prog, "R2")
+        ctx.call(blob_rules.image_siblings, prog, "R3")
+        ctx.call(blob_rules.enum_tag_bijection, prog, "R4")
+        ctx.call(page_rules.read_current_page_shape, prog, "R5")
+        ctx.call(page_rules.reload_after_advance, prog, "R5")
+        ctx.call(cache_rules.who_may_write, prog, cache_rules.PR, rule="R6")
+        ctx.call(cache_rules.invalidate_on_clobber, prog, cache_rules.PR, rule="R6")
+        ctx.call(cache_rules.validate_before_publish, prog, cache_rules.PR, "table" if cfg == "lib" else "crate", rule="R6")
+        ctx.call(cache_rules.serve_only_verified, prog, cache_rules.PR, rule="R6")
     ctx.cfg = None
